@@ -302,8 +302,11 @@ func (ic *Credential) NonrevIndex() (int, error) {
 	if ic.NonRevocationWitness == nil {
 		return -1, errors.New("credential has no nonrevocation witness")
 	}
+	if ic.NonRevocationWitness.E == nil {
+		return -1, errors.New("incomplete nonrevocation witness")
+	}
 	for idx, i := range ic.Attributes {
-		if i.Cmp(ic.NonRevocationWitness.E) == 0 {
+		if i != nil && i.Cmp(ic.NonRevocationWitness.E) == 0 {
 			return idx, nil
 		}
 	}
